@@ -72,7 +72,7 @@ RULE = ("%d seed structs (derived GetSeeds with 0..16 fields of Pubkey / u8 / u1
         "without the trailing empty seed) x random and boundary field values x program ids (runtime id through "
         "CurrentProgram, or a fixed StarFrameProgram) x candidate keys {canonical PDA by Seeds and by SeedsWithBump, a lower "
         "valid bump, a wrong bump, PDA of permuted seeds, PDA of a one-bit-perturbed field, PDA under another program, an "
-        "on-curve hash, random and zero keys}, every explicit-bump candidate also through Init<Seeded<Account<_>>> + CreateIfNeeded on an already existing account, the candidate ACCOUNTS in five states (balance 0 / 1 / u64::MAX, system- / program- / foreign-owned, with and without data, signer / writable flags) + client find/create for several bumps. non-trivial = the case contains at "
+        "on-curve hash, random and zero keys}, every candidate (explicit bump and canonical search) also through Init<Seeded<Account<_>>> + CreateIfNeeded on an already existing account, the candidate ACCOUNTS in five states (balance 0 / 1 / u64::MAX, system- / program- / foreign-owned, with and without data, signer / writable flags) + client find/create for several bumps. non-trivial = the case contains at "
         "least one candidate that passes validation and one that fails" % len(FAMILY))
 TRUSTED = [
     "Coq 8.16.1 kernel", "extraction (ExtrOcamlBasic only) + runner/driver.ml",
@@ -368,7 +368,7 @@ def make_case(rng, sid, pmode=None, pid=None, vals=None):
     # the same explicit-bump decisions reached through Init<Seeded<Account<_>>> + CreateIfNeeded on an account that already
     # exists (mode 2; only CurrentProgram seeds can be initialised): nothing is created, so no signed CPI checks the address
     if pmode == 0:
-        cands += [(k, 2, b) for (k, m, b) in cands if m == 1]
+        cands += [(k, 2, b) for (k, m, b) in cands if m == 1] + [(k, 3, b) for (k, m, b) in cands if m == 0]
     cands = rng.shuffle(cands)
     table = sorted(orc.table.items())
     return encode(sid, pid, pmode, vals, cands, cb, table)
@@ -468,14 +468,14 @@ def predicate(c, obs):
         # 3. candidates
         for key, mode, bump in d["cands"]:
             tag = r.next()
-            if mode == 0:
+            if mode in (0, 3):
                 want = found is not None and found[0] == key
                 wbump = found[1] if found else None
             else:
                 cr = orc.create(real + [[bump]], spid)
                 want = cr == ("ok", key)
                 wbump = bump
-            what = ("Seeds(S)" if mode == 0 else "SeedsWithBump(S, %d)" % bump) + (" through Init + CreateIfNeeded on an existing account" if mode == 2 else "")
+            what = ("Seeds(S)" if mode in (0, 3) else "SeedsWithBump(S, %d)" % bump) + (" through Init + CreateIfNeeded on an existing account" if mode >= 2 else "")
             if tag == 0:
                 rec = r.next()
                 if r.next() != 0:
@@ -500,9 +500,9 @@ def predicate(c, obs):
                 code = r.next()
                 if want:
                     return "validation with %s rejected the derived address (error %s)" % (what, code)
-                if mode == 0 and found is not None and code != E_MISMATCH:
+                if mode in (0, 3) and found is not None and code != E_MISMATCH:
                     return "wrong key rejected with error %s instead of AddressMismatch" % code
-                if mode >= 1:
+                if mode in (1, 2):
                     cr = orc.create(real + [[bump]], spid)
                     exp = E_MISMATCH if cr[0] == "ok" else cr[1]
                     if code != exp:
@@ -510,7 +510,7 @@ def predicate(c, obs):
             else:
                 if want:
                     return "validation with %s panicked on the derived address" % what
-                if not (mode == 0 and found is None):
+                if not (mode in (0, 3) and found is None):
                     return "validation with %s panicked" % what
         # 4. client helpers, always under the program's own id
         cfound, _ = orc.find(l, PROG_ID)
@@ -596,7 +596,7 @@ def distribution(cases, impl):
             r, _ = parse_obs(o)
             for key, mode, bump in d["cands"]:
                 t = r.next()
-                kind = ("Seeds" if mode == 0 else "WithBump" if mode == 1 else "InitWithBump") + ":" + {0: "ok", 1: "err", 2: "panic"}.get(t, "?")
+                kind = {0: "Seeds", 1: "WithBump", 2: "InitWithBump", 3: "InitSeeds"}.get(mode, "?") + ":" + {0: "ok", 1: "err", 2: "panic"}.get(t, "?")
                 if t == 0:
                     _skip_ok(r)
                 elif t == 1:
